@@ -497,16 +497,25 @@ func specTimestamp(s string) bool {
 
 var _ = time.Now
 
-func cmdMicro(prop string, n int, seed uint64, driver, out string) (*Result, error) {
-	root := NewRng(seed ^ hashSeed(prop+"micro"))
+// forced == "builders": whatever the property, the cases are builder call sequences (the builders are one of the ways every
+// property's data comes into being)
+func cmdMicro(prop string, n int, seed uint64, driver, out string, forced string) (*Result, error) {
+	root := NewRng(seed ^ hashSeed(prop+"micro"+forced))
 	prof := profileFor(prop)
 	prof.PLongStrings = 0.3
 	res := &Result{Prop: prop, Mode: "micro", Seed: seed, Distribution: map[string]int{}}
+	if forced != "" {
+		res.Mode = forced
+	}
 	var cases []*microCase
 	for i := 0; i < n; i++ {
 		r := root.Fork()
 		var mc *microCase
-		switch prop {
+		sel := prop
+		if forced == "builders" {
+			sel = "C15"
+		}
+		switch sel {
 		case "C06":
 			if !haveHooks {
 				res.Notes = append(res.Notes, "hooks unavailable: bucket/buffer/hex micro cases skipped (black-box eval cases only)")
@@ -561,7 +570,7 @@ func cmdMicro(prop string, n int, seed uint64, driver, out string) (*Result, err
 		"C19": "option lists for NewEvaluatorWithOptions with nil entries, repeated options, nil loggers and nil providers; what the evaluator ended up configured with is read off three probe evaluations (secondary key hashed, error line written for a malformed flag, big-segment store asked); the model folds the list; non-trivial = at least two entries",
 		"C18": "ValueToTimestamp on rendered instants of years 0000-9999 (random offset, fraction, case), corrupted/truncated renderings, epoch numbers incl. extremes; non-trivial = accepted as a timestamp",
 		"C07": "pairs of rollouts where one bucket grows at the expense of later ones, and segment rules with growing weight, on contexts whose bucket is adjacent to the split; non-trivial = the context was in the grown bucket",
-	}[prop]
+	}[sel0(prop, forced)]
 	lines := make([]string, len(cases))
 	for i, mc := range cases {
 		lines[i] = mc.wire.Line()
@@ -609,4 +618,11 @@ func cmdMicro(prop string, n int, seed uint64, driver, out string) (*Result, err
 	res.Evaluations = len(cases)
 	res.KernelCases = writeKernelSample(out, lines, answers, 40)
 	return res, nil
+}
+
+func sel0(prop, forced string) string {
+	if forced == "builders" {
+		return "C15"
+	}
+	return prop
 }
